@@ -141,7 +141,7 @@ CHECKS["C11"] = dict(
 CHECKS["C03"] = dict(
     engine="crash",
     technique="crash-point enumeration: the victim's operation is recorded effect by effect, then re-run with a hard crash before and after every backend effect, followed by clock advance, the real recovery task bodies and a draining survivor; end state and body completions judged",
-    text="12 scenarios (client single / batch call after an accepted one, runner claiming 2 messages, claim through the blocking path, worker run to success (with and without a heartbeat ever sent) / failure / retry-then-success, concurrency-controlled reroute, kill-and-reroute, pending recovery of 2, running recovery of 2) x {memory (worker-thread death), SQLite (separate app object per process)}: every effect of the victim (queue push/pop, status write, register, argument index, retry counter, wait-graph write/release, result/exception write, history, upsert) x {before, after} = 320 crash runs + fault-free runs; afterwards 3 rounds of (clock +11 min, recover_pending_invocations and recover_running_invocations bodies under a surviving runner, drain). Every accepted invocation must be final and its body completed >= 1 time; the position of a stranded invocation at the crash instant is classified.",
+    text="14 scenarios (client single / batch call after an accepted one, runner claiming 2 messages, claim through the blocking path, worker run to success (with and without a heartbeat ever sent) / failure / retry-then-success, concurrency-controlled reroute, kill-and-reroute, the real PersistentProcessRunner worker main and the real ProcessRunner loop iteration polling a blocked invocation in front of a runnable one, pending recovery of 2, running recovery of 2) x {memory (worker-thread death), SQLite (separate app object per process)}: every effect of the victim (queue push/pop, status write, register, argument index, retry counter, wait-graph write/release, result/exception write, history, upsert) x {before, after} = 414 crash runs + fault-free runs; afterwards 3 rounds of (clock +11 min, recover_pending_invocations and recover_running_invocations bodies under a surviving runner, drain). Every accepted invocation must be final and its body completed >= 1 time; the position of a stranded invocation at the crash instant is classified.",
     note="18 recorded findings (known_findings.json), one per stranding window: message popped but not yet claimed; status RETRY/REROUTED written but not yet pushed; KILLED / CONCURRENCY_CONTROLLED / *_RECOVERY written and the writer dies. Crash granularity = one backend effect (SQLite's own atomicity trusted); survivors run sequentially; no real process death or OS signals.",
     design_ref="§2 C03",
 )
